@@ -1,6 +1,7 @@
 import MxModel.Proofs.PathCodec
 import MxModel.Proofs.DocQuote
 import MxModel.Kernels.Dispatch
+import MxModel.Proofs.SaveFiles
 /-!
 # C04 – Write/read round trip: the two codecs the serializer relies on
 
@@ -13,8 +14,14 @@ Property theorems only (helper lemmas are in `Proofs/PathCodec.lean`, `Proofs/Do
   documentation string since commit 2b72506) against Python's reading of a triple-quoted
   literal: tokenizer, escape decoder, universal newlines, the line re-join of a def's source.
 
+* `Kernels/SaveFiles.lean` – one call of `write_model` / `zip_model` by file NAME: the backup
+  rotation, the in-place directory writer, the build-aside-and-move archive writer.  Whatever a
+  history of earlier writes left at the path, the target afterwards holds exactly the entries of
+  this write (section "The save step" at the end).
+
 The whole-model round trip (space tree, formulas, flags, references, inputs, directory = zip,
-write inert) is not a theorem; it is checked on the implementation (harness `c04.py`).
+write inert) is not a theorem; it is checked on the implementation (harness `c04.py`, and
+`c04hist.py` for histories of writes to one path).
 -/
 namespace MxModel.C04
 open MxModel.PathCodec MxModel.DocQuote MxModel.Dispatch MxModel.Generated
@@ -264,6 +271,161 @@ line continuation; a truncated `\x` is an error -/
 example : readLiteral "\"\"\"\\101\\x41\\u0041\\U00000041\\d\\\n\\0\"\"\"".toList
     = some ("AAAA\\d".toList ++ [Char.ofNat 0]) := by decide +kernel
 example : readLiteral "\"\"\"\\x4\"\"\"".toList = none := by decide +kernel
+
+/-! ## The save step: the target after a write = exactly the entries of this write
+
+`read_model` trusts files by existence (`_data/<cells>`, `_data/_dynamic_inputs`, `_data/data.pickle`,
+`_data/iospecs.pickle`); the directory writer writes below the final path and removes nothing.  That a
+model written over an earlier, larger version of itself is read back as the model it is therefore
+rests on `_increment_backups` having emptied the path first - for EVERY prior content of the path and
+its backups, both formats, `backup` on or off. -/
+
+section SaveStep
+open MxModel.SaveFiles
+
+/-- **The target holds exactly this write.**  For every prior state of the path and its backup slots
+(directories or archives with any entries, from any earlier writes), every `max_backups`, both
+formats: the save succeeds and the path then holds the entries this write produced, each with this
+write's content - no entry of an earlier write, none missing, none twice. -/
+theorem save_target_exact (fs : FS) (maxB : Nat) (k : Kind) (g : Nat) (names : List String)
+    (h : names.Nodup) :
+    ∃ fs', save maxB k g names fs = some fs' ∧ fs' 0 = .node k (names.map (fun n => (n, g))) := by
+  have h0 : incr fs maxB 0 0 = .absent := incr_start_absent fs maxB 0
+  cases k with
+  | dir =>
+    refine ⟨(incr fs maxB 0).set 0 (.node .dir (writeAll g names [])), ?_, ?_⟩
+    · simp [save, writer, writeDir, h0]
+    · rw [FS.set_same, writeAll_fresh g names [] h (by intro _ _ x hx; cases hx)]
+      simp
+  | zip =>
+    refine ⟨(incr fs maxB 0).set 0 (.node .zip (names.map (fun n => (n, g)))), ?_, ?_⟩
+    · simp [save, writer, writeZip, h0]
+    · rw [FS.set_same]
+
+/-- every other slot is what the rotation made of it (the writers touch the path only) -/
+theorem save_other_slots (fs fs' : FS) (maxB : Nat) (k : Kind) (g : Nat) (names : List String)
+    (h : save maxB k g names fs = some fs') (i : Nat) (hi : i ≠ 0) : fs' i = incr fs maxB 0 i := by
+  have h0 : incr fs maxB 0 0 = .absent := incr_start_absent fs maxB 0
+  cases k with
+  | dir =>
+    simp [save, writer, writeDir, h0] at h
+    subst h
+    exact FS.set_other _ _ hi
+  | zip =>
+    simp [save, writer, writeZip, h0] at h
+    subst h
+    exact FS.set_other _ _ hi
+
+/-- `backup=True`: an unbroken run of existing slots `path, _BAK1 .. _BAKj` (`j < max_backups`) moves up
+by one: what was at the path is at `_BAK1`, what was at `_BAKn` is at `_BAKn+1` -/
+theorem backups_shift (fs fs' : FS) (maxB : Nat) (k : Kind) (g : Nat) (names : List String)
+    (h : save maxB k g names fs = some fs') (j : Nat) (hj : j < maxB)
+    (hex : ∀ i, i ≤ j → fs i ≠ .absent) : fs' (j + 1) = fs j := by
+  rw [save_other_slots fs fs' maxB k g names h (j + 1) (by omega)]
+  exact incr_shift fs maxB 0 j (Nat.zero_le _) (by omega) (fun i _ b => hex i b)
+
+/-- `backup=False` (`max_backups = 0`): no backup slot changes -/
+theorem no_backup_keeps_other_slots (fs fs' : FS) (k : Kind) (g : Nat) (names : List String)
+    (h : save 0 k g names fs = some fs') (i : Nat) (hi : i ≠ 0) : fs' i = fs i := by
+  rw [save_other_slots fs fs' 0 k g names h i hi]
+  exact incr_beyond fs 0 0 i (by omega)
+
+/-- nothing beyond `_BAK<max_backups>` is ever touched (or created) -/
+theorem nothing_beyond_max_backups (fs fs' : FS) (maxB : Nat) (k : Kind) (g : Nat) (names : List String)
+    (h : save maxB k g names fs = some fs') (i : Nat) (hi : maxB < i) : fs' i = fs i := by
+  rw [save_other_slots fs fs' maxB k g names h i (by omega)]
+  exact incr_beyond fs maxB 0 i (by omega)
+
+/-- the rotation stops at the first missing slot: backups behind a gap stay where they are -/
+theorem backups_behind_a_gap_stay (fs fs' : FS) (maxB : Nat) (k : Kind) (g : Nat) (names : List String)
+    (h : save maxB k g names fs = some fs') (gap i : Nat) (hg : fs gap = .absent) (hi : gap < i) :
+    fs' i = fs i := by
+  rw [save_other_slots fs fs' maxB k g names h i (by omega)]
+  exact incr_stops_at_gap fs maxB 0 gap i (Nat.zero_le _) hg hi
+
+/-- adequacy of modelling `Path.rename` as overwriting: when `_increment_backups` renames slot `nth`
+to `nth + 1`, the deeper call has left `nth + 1` free and has not touched `nth` -/
+theorem rename_target_free (fs : FS) (fuel nth : Nat) :
+    incr fs fuel (nth + 1) (nth + 1) = .absent ∧ incr fs fuel (nth + 1) nth = fs nth :=
+  ⟨incr_start_absent fs fuel (nth + 1), incr_below fs fuel (nth + 1) nth (by omega)⟩
+
+/-- **Histories**: after every write of any history of writes to one path (any mixture of formats and
+backup settings, names pairwise different within a write) the path holds exactly that write -/
+theorem after_every_write_of_a_history (ws : List Write) (h : ∀ w ∈ ws, w.names.Nodup)
+    (i : Nat) (hi : i < ws.length) :
+    ∃ fs', (run ws)[i]? = some (some fs') ∧
+      fs' 0 = .node ws[i].kind (ws[i].names.map (fun n => (n, i))) := by
+  suffices H : ∀ (ws : List Write) (g : Nat) (fs : FS), (∀ w ∈ ws, w.names.Nodup) →
+      ∀ (i : Nat) (hi : i < ws.length), ∃ fs', (runFrom g fs ws)[i]? = some (some fs') ∧
+        fs' 0 = .node ws[i].kind (ws[i].names.map (fun n => (n, g + i))) by
+    simpa [run] using H ws 0 FS.empty h i hi
+  intro ws
+  induction ws with
+  | nil => intro g fs _ i hi; cases hi
+  | cons w ws ih =>
+    intro g fs hnd i hi
+    obtain ⟨fs1, e1, e2⟩ := save_target_exact fs w.maxB w.kind g w.names (hnd w (List.mem_cons_self ..))
+    cases i with
+    | zero => exact ⟨fs1, by simp [runFrom, e1], by simpa using e2⟩
+    | succ i =>
+      obtain ⟨fs', a, b⟩ := ih (g + 1) fs1 (fun w' hw => hnd w' (List.mem_cons_of_mem _ hw)) i
+        (by simpa using hi)
+      refine ⟨fs', by simp [runFrom, e1, a], ?_⟩
+      have : g + (i + 1) = g + 1 + i := by omega
+      simpa [this] using b
+
+/-- the directory writer alone does not have the property: an entry of the old tree that this write
+does not produce survives a write in place (any old entry, any names) ... -/
+theorem write_in_place_keeps_other_entries (fs fs' : FS) (g : Nat) (names : List String)
+    (old : List Entry) (x : Entry) (hfs : fs 0 = .node .dir old) (hx : x ∈ old) (hn : x.1 ∉ names)
+    (h : writeDir g names fs = some fs') : ∃ es, fs' 0 = .node .dir es ∧ x ∈ es := by
+  simp [writeDir, hfs] at h
+  subst h
+  exact ⟨_, FS.set_same _ _ _, writeAll_keeps g x names old hx hn⟩
+
+/-- ... so "the target holds exactly this write" is false of the writer without the removal that
+`_increment_backups` performs: the stale `_data/foo` of a cells whose input was withdrawn is still
+there, and the reader would load it -/
+theorem write_in_place_full_fails :
+    ¬ ∀ (fs : FS) (g : Nat) (names : List String), names.Nodup →
+        ∃ fs', writeDir g names fs = some fs' ∧ fs' 0 = .node .dir (names.map (fun n => (n, g))) := by
+  intro H
+  obtain ⟨fs', e1, e2⟩ := H (FS.empty.set 0 (.node .dir [("S/__init__.py", 0), ("S/_data/foo", 0)])) 1
+    ["S/__init__.py"] (by decide)
+  obtain ⟨es, e3, e4⟩ := write_in_place_keeps_other_entries _ fs' 1 ["S/__init__.py"] _ ("S/_data/foo", 0)
+    (FS.set_same _ _ _) (by decide) (by decide) e1
+  rw [e2] at e3
+  injection e3 with _ e5
+  subst e5
+  revert e4
+  decide
+
+/-- non-vacuity.  A directory holding an earlier, larger version (an input file of `foo`, the pickle
+table, an input log); the model is written again after the input was withdrawn. -/
+def olderLarger : FS :=
+  (FS.empty.set 0 (.node .dir [("__init__.py", 0), ("S/__init__.py", 0), ("S/_data/foo", 0),
+    ("_data/data.pickle", 0), ("_input_log.txt", 0)])).set 1 (.node .zip [("__init__.py", 7)])
+
+example : (save 0 .dir 1 ["__init__.py", "S/__init__.py"] olderLarger).map (fun fs => (fs 0, fs 1, fs 2))
+    = some (.node .dir [("__init__.py", 1), ("S/__init__.py", 1)], .node .zip [("__init__.py", 7)], .absent) := by
+  decide +kernel
+example : (save 3 .zip 1 ["__init__.py", "S/__init__.py"] olderLarger).map (fun fs => (fs 0, fs 1 = olderLarger 0, fs 2, fs 3))
+    = some (.node .zip [("__init__.py", 1), ("S/__init__.py", 1)], True, .node .zip [("__init__.py", 7)], .absent) := by
+  simp [save, writer, writeZip, incr, olderLarger, FS.set, FS.empty]
+/-- the writer alone, on the same state: the three stale entries are still there -/
+example : (writeDir 1 ["__init__.py", "S/__init__.py"] olderLarger).map (fun fs => fs 0)
+    = some (.node .dir [("__init__.py", 1), ("S/__init__.py", 1), ("S/_data/foo", 0),
+        ("_data/data.pickle", 0), ("_input_log.txt", 0)]) := by
+  decide +kernel
+/-- a history: directory, archive over it with a backup, directory over that without -/
+example : ((run [⟨.dir, 3, ["a", "b"]⟩, ⟨.zip, 3, ["a"]⟩, ⟨.dir, 0, ["a", "c"]⟩]).map
+      (fun o => o.map (fun fs => (fs 0, fs 1))))
+    = [some (.node .dir [("a", 0), ("b", 0)], .absent),
+       some (.node .zip [("a", 1)], .node .dir [("a", 0), ("b", 0)]),
+       some (.node .dir [("a", 2), ("c", 2)], .node .dir [("a", 0), ("b", 0)])] := by
+  decide +kernel
+
+end SaveStep
 
 example : selectDecoder "Pickle" = some ("PickleDecoder", "Pickle") := by decide
 example : selectDecoder "" = some ("LiteralDecoder", "") := by decide
